@@ -10,6 +10,7 @@ import (
 	"encoding/json"
 	"fmt"
 	"math"
+	"net"
 	"sort"
 	"strconv"
 	"strings"
@@ -47,6 +48,9 @@ type c14Case struct {
 	Reg         c14Reg    `json:"reg"`
 	Expressible bool      `json:"expressible"`
 	Denote      c14Denote `json:"denote"`
+	Second      string    `json:"second"`             // prefix of an optional second routing tag (no options)
+	SecondOK    bool      `json:"second_expressible"` // the second tag's command can be expressed
+	Denote2     c14Denote `json:"denote2"`
 	Pos         int       `json:"pos,omitempty"` // replay: position of the routing tag among the tags (1-based)
 }
 
@@ -123,6 +127,9 @@ func TestVerifC14(t *testing.T) {
 		}
 		tags := append([]string{}, extra[:pos-1]...)
 		tags = append(tags, routing)
+		if c.Second != "" {
+			tags = append(tags, "urlprefix-"+c.Second)
+		}
 		tags = append(tags, extra[pos-1:]...)
 		svc := &api.CatalogService{Node: "n1", Address: c.Reg.NodeAddr, ServiceID: "id1", ServiceName: c.Reg.Name,
 			ServiceAddress: c.Reg.Addr, ServicePort: port, ServiceTags: tags}
@@ -136,79 +143,113 @@ func TestVerifC14(t *testing.T) {
 			verifx.Fail(cc, feat("panic"), "routecmd.build panicked: %v\n%s", p, stack)
 			return nil
 		}
-		if !c.Expressible {
-			if len(cmds) != 0 {
-				// is it at least rejected by the parser on its own?  (that is the poison case)
-				_, perr := froute.NewTable(bytes.NewBufferString(strings.Join(cmds, "\n")))
-				d := "inexpressible-not-dropped-but-accepted"
-				if perr != nil {
-					d = "inexpressible-not-dropped-poisons-table"
-				}
-				verifx.Fail(cc, feat(d), "registration %+v cannot be expressed but yields %q (parser: %v)", c.Reg, cmds, perr)
+		// what must / may come out: prefix key -> denotation
+		key := func(src string) string {
+			if !strings.Contains(src, "/") && !strings.HasPrefix(src, ":") {
+				return src + "/"
 			}
-			return nil
+			return src
 		}
-		if len(cmds) != 1 {
-			verifx.Fail(cc, feat("command-count"), "registration %+v yields %d commands %q, want 1", c.Reg, len(cmds), cmds)
-			return nil
+		must := map[string]c14Denote{}
+		may := map[string]c14Denote{}
+		if c.Expressible {
+			must[key(c.Denote.Src)] = c.Denote
 		}
-		var tbl froute.Table
-		var perr error
-		if p, stack := verifx.Safely(func() { tbl, perr = froute.NewTable(bytes.NewBufferString(cmds[0])) }); p != nil {
-			verifx.Fail(cc, feat("parser-panic"), "NewTable(%q) panicked: %v\n%s", cmds[0], p, stack)
-			return nil
-		}
-		if perr != nil {
-			verifx.Fail(cc, feat("rejected"), "command %q derived from %+v is rejected by fabio's parser: %v", cmds[0], c.Reg, perr)
-			return nil
-		}
-		// the table must hold exactly the denoted target
-		var got []string
-		var tg *froute.Target
-		for host, routes := range tbl {
-			for _, r := range routes {
-				for _, x := range r.Targets {
-					got = append(got, host+r.Path)
-					tg = x
-				}
+		if c.Second != "" && c.SecondOK {
+			if c.Expressible {
+				must[key(c.Denote2.Src)] = c.Denote2
+			} else {
+				// the first tag of the registration cannot be expressed: whether the plain second tag
+				// survives is a matter of granularity the statement leaves open
+				may[key(c.Denote2.Src)] = c.Denote2
 			}
 		}
-		src := c.Denote.Src
-		if !strings.Contains(src, "/") && !strings.HasPrefix(src, ":") {
-			src += "/"
+		seen := map[string]bool{}
+		for _, cmd := range cmds {
+			var tbl froute.Table
+			var perr error
+			if p, stack := verifx.Safely(func() { tbl, perr = froute.NewTable(bytes.NewBufferString(cmd)) }); p != nil {
+				verifx.Fail(cc, feat("parser-panic"), "NewTable(%q) panicked: %v\n%s", cmd, p, stack)
+				return nil
+			}
+			if perr != nil {
+				verifx.Fail(cc, feat("rejected-poisons-table"), "command %q derived from %+v is rejected by fabio's parser: %v", cmd, c.Reg, perr)
+				return nil
+			}
+			var got []string
+			var tg *froute.Target
+			for host, routes := range tbl {
+				for _, r := range routes {
+					for _, x := range r.Targets {
+						got = append(got, host+r.Path)
+						tg = x
+					}
+				}
+			}
+			if len(got) != 1 {
+				verifx.Fail(cc, feat("command-shape"), "command %q yields routes %q, want exactly one target", cmd, got)
+				return nil
+			}
+			d, ok := must[got[0]]
+			if !ok {
+				d, ok = may[got[0]]
+			}
+			if !ok {
+				diff := "unexpected-command"
+				if !c.Expressible {
+					diff = "inexpressible-not-dropped"
+				}
+				verifx.Fail(cc, feat(diff), "registration %+v (tags %q) yields command %q, which it does not denote", c.Reg, tags, cmd)
+				return nil
+			}
+			if seen[got[0]] {
+				verifx.Fail(cc, feat("duplicate-command"), "registration %+v yields two commands for %q", c.Reg, got[0])
+				return nil
+			}
+			seen[got[0]] = true
+			want := 0.0
+			if d.Weight != "" {
+				want, _ = strconv.ParseFloat(d.Weight, 64)
+			}
+			var wantTags []string
+			for _, x := range d.Tags {
+				wantTags = append(wantTags, c14Spell(x))
+			}
+			var gotOpts []string
+			for k, v := range tg.Opts {
+				gotOpts = append(gotOpts, k+"="+v)
+			}
+			sort.Strings(gotOpts)
+			wantOpts := append([]string{}, d.Opts...)
+			sort.Strings(wantOpts)
+			which := "first"
+			if got[0] == key(c.Denote2.Src) && c.Second != "" {
+				which = "second"
+			}
+			f2 := func(diff string) map[string]any { m := feat(diff); m["tag"] = which; return m }
+			_, _, splitErr := net.SplitHostPort(tg.URL.Host)
+			switch {
+			case tg.Service != d.Svc:
+				verifx.Fail(cc, f2("service"), "command %q: service %q, want %q", cmd, tg.Service, d.Svc)
+			case d.Dst.URL != "" && tg.URL.String() != d.Dst.URL:
+				verifx.Fail(cc, f2("destination"), "command %q: redirect target %q, want %q", cmd, tg.URL.String(), d.Dst.URL)
+			case d.Dst.URL == "" && (tg.URL.Scheme != d.Dst.Scheme || tg.URL.Host != d.Dst.Hostport || (tg.URL.Path != "" && tg.URL.Path != "/")):
+				verifx.Fail(cc, f2("destination"), "command %q: destination %q, want protocol %q address %q", cmd, tg.URL.String(), d.Dst.Scheme, d.Dst.Hostport)
+			case d.Dst.URL == "" && splitErr != nil:
+				verifx.Fail(cc, f2("destination"), "command %q: destination address %q cannot be dialled: %v", cmd, tg.URL.Host, splitErr)
+			case math.Abs(tg.FixedWeight-want) > 1e-12:
+				verifx.Fail(cc, f2("weight"), "command %q: weight %v, want %v", cmd, tg.FixedWeight, want)
+			case fmt.Sprintf("%q", tg.Tags) != fmt.Sprintf("%q", wantTags) && !(len(tg.Tags) == 0 && len(wantTags) == 0):
+				verifx.Fail(cc, f2("tags"), "command %q: tags %q, want %q", cmd, tg.Tags, wantTags)
+			case strings.Join(gotOpts, " ") != strings.Join(wantOpts, " "):
+				verifx.Fail(cc, f2("opts"), "command %q: options %q, want %q", cmd, gotOpts, wantOpts)
+			}
 		}
-		if len(got) != 1 || got[0] != src {
-			verifx.Fail(cc, feat("prefix"), "command %q routes %q, want exactly %q", cmds[0], got, src)
-			return nil
-		}
-		want := 0.0
-		if c.Denote.Weight != "" {
-			want, _ = strconv.ParseFloat(c.Denote.Weight, 64)
-		}
-		var wantTags []string
-		for _, x := range c.Denote.Tags {
-			wantTags = append(wantTags, c14Spell(x))
-		}
-		var gotOpts []string
-		for k, v := range tg.Opts {
-			gotOpts = append(gotOpts, k+"="+v)
-		}
-		sort.Strings(gotOpts)
-		wantOpts := append([]string{}, c.Denote.Opts...)
-		sort.Strings(wantOpts)
-		switch {
-		case tg.Service != c.Denote.Svc:
-			verifx.Fail(cc, feat("service"), "command %q: service %q, want %q", cmds[0], tg.Service, c.Denote.Svc)
-		case c.Denote.Dst.URL != "" && tg.URL.String() != c.Denote.Dst.URL:
-			verifx.Fail(cc, feat("destination"), "command %q: redirect target %q, want %q", cmds[0], tg.URL.String(), c.Denote.Dst.URL)
-		case c.Denote.Dst.URL == "" && (tg.URL.Scheme != c.Denote.Dst.Scheme || tg.URL.Host != c.Denote.Dst.Hostport || (tg.URL.Path != "" && tg.URL.Path != "/")):
-			verifx.Fail(cc, feat("destination"), "command %q: destination %q, want protocol %q address %q", cmds[0], tg.URL.String(), c.Denote.Dst.Scheme, c.Denote.Dst.Hostport)
-		case math.Abs(tg.FixedWeight-want) > 1e-12:
-			verifx.Fail(cc, feat("weight"), "command %q: weight %v, want %v", cmds[0], tg.FixedWeight, want)
-		case fmt.Sprintf("%q", tg.Tags) != fmt.Sprintf("%q", wantTags) && !(len(tg.Tags) == 0 && len(wantTags) == 0):
-			verifx.Fail(cc, feat("tags"), "command %q: tags %q, want %q", cmds[0], tg.Tags, wantTags)
-		case strings.Join(gotOpts, " ") != strings.Join(wantOpts, " "):
-			verifx.Fail(cc, feat("opts"), "command %q: options %q, want %q", cmds[0], gotOpts, wantOpts)
+		for k := range must {
+			if !seen[k] {
+				verifx.Fail(cc, feat("missing-command"), "registration %+v (tags %q) yields %q: no command for the advertised prefix %q", c.Reg, tags, cmds, k)
+				break
+			}
 		}
 		if n%20011 == 5 && len(samples) < 4 {
 			samples = append(samples, map[string]any{"tags": tags, "name": c.Reg.Name, "commands": cmds})
